@@ -16,6 +16,7 @@ fn main() {
         Ok(r) => println!("weighted_quantiles_u64 returned {:?}", r),
         Err(_) => println!("weighted_quantiles_u64({:?}, {:?}, {}) did NOT return within 20 s (HANG)", pts, ws, n),
     }
+    println!("weighted_quantiles_u64([0,4,8],[1e-16;3],5) = {:?}", { let (tx, rx) = mpsc::channel(); std::thread::spawn(move || { let _ = tx.send(coupe::verif_hilbert::weighted_quantiles_u64(&[0, 4, 8], &[1e-16, 1e-16, 1e-16], 5)); }); rx.recv_timeout(Duration::from_secs(10)).ok() });
     // the public API: 2-D points on a line, order 3; tiny weights
     for scale in [1.0e-16f64, 1.0e-17, 1.0e-15, 1.0e-12] {
         for (npts, k) in [(3usize, 6usize), (8, 4), (16, 5), (40, 7)] {
